@@ -36,7 +36,7 @@ ASSUMPTIONS = [
     "or heavily shared machine widens the budget, never narrows it.",
 ]
 MIN_NONTRIVIAL = {'quick': 5000, 'thorough': 30000}
-REQUIRED_MONITORS = ['timer:PLSSDesc', 'timer:Tract', 'calibration']
+REQUIRED_MONITORS = ['timer:PLSSDesc', 'timer:Tract', 'calibration', 'repeat']
 SHARD_TIMEOUT = {'quick': 900, 'thorough': 5400}
 
 UNITS = [
@@ -60,18 +60,27 @@ UNITS = [
     ' , ', ';;', '::', '.,', ',.', ' / ', '/ ',
     # digit groups (acreages, references)
     '123,', '1,', '12.', '123 ', '0.', '9',
+    # wide ranges, chained or listed (each expands to hundreds of numbers)
+    '1-999-', '1-999, ', '-999', ' 1 - 500,', '1 thru 900 and ',
 ]
 PREFIXES = ['', 'T154N-R97W ', 'T154N-R97W Sec 14', 'T154N-R97W Sec 14: ',
             'T154N-R97W Sec 14: Lot 1', 'T154N-R97W Sec 14: N/2', 'Sec 14',
             'NE/4 of Sec 14', 'T154N-R97W Sec 14: NE/4 of the',
             'Township 154 North', 'T154N-R97',
-            'T154N-R97W Sec 14: Lot 1 (', 'T154N-R97W Sec 14: Lot 1 [3']
+            # a township written without N/S, a range without E/W
+            'Township 154 ', 'T154 ', 'T154-R97 ', 'Sec 14: NE/4, Township 154',
+            'Township 154 North, Range ',
+            'T154N-R97W Sec 14: Lot 1 (', 'T154N-R97W Sec 14: Lot 1 [3',
+            'T154N-R97W Sec 14: Lots ']
 SUFFIXES = ['', ' Sec 15: W/2', 'X', ' T154N-R97W', '1', ' P.M.', ' NE/4',
             '-A) NE/4']
-TRACT_PREFIXES = ['', 'NE/4', 'N/2 of', 'Lot 1', 'Lots 1 - 3,', 'N½NE¼',
+TRACT_PREFIXES = ['', 'NE/4', 'N/2 of', 'Lot 1', 'Lots 1 - 3,', 'N½NE¼', 'Lots ',
                   'Northeast Quarter', 'NE', 'ALL', 'Lot 1 (', 'Lot 1 [3']
 TRACT_SUFFIXES = ['', 'x', ' NE/4', ' Lot 2', '1', ' of the SW/4', '-A)']
 LADDER = (62, 125, 250)
+WIDE_RANGE_UNITS = ('1-999-', '1-999, ', '-999', ' 1 - 500,', '1 thru 900 and ')
+REPEAT_CONFIGS = ['ocr_scrub', 'clean_qq,parse_qq', 'segment,sec_within',
+                  'sec_colon_cautious', 'ocr_scrub,segment,parse_qq', '']
 # A shard that has confirmed this many violations stops measuring (each
 # costs three cut-off runs); the verdict is already decided.
 MAX_CONFIRMED_PER_SHARD = 3
@@ -82,6 +91,7 @@ def plan(tier, seed):
     shards = [{'family': 'pump', 'part': i, 'parts': nshards}
               for i in range(nshards)]
     shards.append({'family': 'structural'})
+    shards.append({'family': 'repeat'})
     for i in range(2 if tier == 'quick' else 8):
         shards.append({'family': 'soup', 'n': 400 if tier == 'quick' else 1500,
                        'i': i})
@@ -139,8 +149,10 @@ class Sampler:
         return self.counts.most_common(3)
 
 
-def parse_target(pytrs, text, target):
-    if target == 'tract':
+def parse_target(pytrs, text, target, cfg=None):
+    if cfg is not None:
+        pytrs.PLSSDesc(text, config=cfg)
+    elif target == 'tract':
         # a tract description parsed directly (no description-level
         # preprocessing in front of it)
         pytrs.Tract(text, parse_qq=True)
@@ -149,12 +161,12 @@ def parse_target(pytrs, text, target):
         pytrs.PLSSDesc(text, parse_qq=True)
 
 
-def timed(pytrs, text, box, target='plss'):
+def timed(pytrs, text, box, target='plss', cfg=None):
     """CPU seconds of one parse; ``box`` if it had to be cut off."""
     t0 = time.process_time()
     try:
         with cpu_timebox(box):
-            parse_target(pytrs, text, target)
+            parse_target(pytrs, text, target, cfg)
     except CaseTimeout:
         return box, True
     except Exception:
@@ -167,11 +179,12 @@ def judge(ctx, pytrs, case, text, budget, decide=True):
     target = case.get('target', 'plss')
     shape = case.get('family', 'pump') + ('/tract' if target == 'tract' else '')
     nontrivial = bool(case.get('p') or case.get('s')) or shape != 'pump'
-    ctx.case([text, target], nontrivial and decide,
+    cfg = case.get('cfg')
+    ctx.case([text, target, cfg, case.get('k')], nontrivial and decide,
              shape=f"{shape}|len<={_bucket(len(text))}",
              sample={'text': text, 'len': len(text)})
     ctx.hit('timer:Tract' if target == 'tract' else 'timer:PLSSDesc')
-    t, cut = timed(pytrs, text, budget * 3, target)
+    t, cut = timed(pytrs, text, budget * 3, target, cfg)
     rec = ctx.extra.setdefault('times', [])
     if t > budget * 0.1 or not decide:
         rec.append([round(t, 4), len(text), case])
@@ -179,25 +192,47 @@ def judge(ctx, pytrs, case, text, budget, decide=True):
         return t
     # Confirmation: two more runs, the minimum decides.
     ctx.hit('confirmation-rerun')
-    t2, _ = timed(pytrs, text, budget * 1.5, target)
-    t3, _ = timed(pytrs, text, budget * 1.5, target)
+    t2, _ = timed(pytrs, text, budget * 1.5, target, cfg)
+    t3, _ = timed(pytrs, text, budget * 1.5, target, cfg)
     tmin = min(t, t2, t3)
     if tmin <= budget:
         ctx.hist['over-budget-once-not-confirmed'] += 1
         return tmin
-    ctx.extra['confirmed'] = ctx.extra.get('confirmed', 0) + 1
-    label = Sampler().run(lambda: parse_target(pytrs, text, target),
+    label = Sampler().run(lambda: parse_target(pytrs, text, target, cfg),
                           budget * 1.5)
     mech = label[0][0] if label else '?'
     vcase = dict(case)
     vcase['text'] = text
+    # How many tracts does the text denote, and what does one cost? (For the
+    # recorded finding: cost proportional to an output of tens of thousands
+    # of tracts, as opposed to time lost inside a pattern.)
+    n_tracts = per_tract_ms = None
+    if target != 'tract':
+        t0 = time.process_time()
+        try:
+            with cpu_timebox(budget * 20):
+                n_tracts = len(pytrs.PLSSDesc(text, parse_qq=True).tracts)
+        except CaseTimeout:
+            pass
+        except Exception:
+            pass
+        if n_tracts:
+            per_tract_ms = round(1000 * (time.process_time() - t0) / n_tracts, 4)
     ctx.violation(
         'over-budget', vcase,
         f"{len(text)} characters took >= {tmin:.2f} s CPU (budget "
         f"{budget:.2f} s; three runs {t:.2f}/{t2:.2f}/{t3:.2f}"
         f"{', cut off' if cut else ''}); time is spent in {label}",
         dedup=f"{target}|{mech}|{case.get('u')!r}|{case.get('p')!r}",
-        mechanism=mech, seconds=round(tmin, 3), length=len(text))
+        mechanism=mech, seconds=round(tmin, 3), length=len(text),
+        n_tracts=n_tracts, per_tract_ms=per_tract_ms)
+    # Only violations that are not the recorded finding count towards the
+    # early stop of the shard (a recorded finding must not hide others).
+    if classify({'kind': 'over-budget', 'n_tracts': n_tracts,
+                 'per_tract_ms': per_tract_ms}) is None:
+        ctx.extra['confirmed'] = ctx.extra.get('confirmed', 0) + 1
+    else:
+        ctx.extra['known_seen'] = ctx.extra.get('known_seen', 0) + 1
     return tmin
 
 
@@ -241,6 +276,12 @@ def run_shard(shard, ctx):
                     if ctx.extra.get('confirmed', 0) >= MAX_CONFIRMED_PER_SHARD:
                         ctx.hist['skipped-after-enough-violations'] += 1
                         continue
+                    if u in WIDE_RANGE_UNITS and 'Sec' in p \
+                            and ctx.extra.get('known_seen', 0) >= 2:
+                        # the recorded finding has been witnessed twice in
+                        # this shard; each further witness costs ~20 s
+                        ctx.hist['skipped-further-witnesses-of-known-finding'] += 1
+                        continue
                     sizes = [SIZE_BOUND]
                     if thorough or k % 3 == ctx.seed % 3:
                         sizes = list(LADDER)
@@ -273,6 +314,22 @@ def run_shard(shard, ctx):
                     case = {'family': 'pump', 'target': 'tract', 'p': p,
                             'u': u, 's': s, 'size': SIZE_BOUND}
                     judge(ctx, pytrs, case, _pump(p, u, s, SIZE_BOUND), budget)
+        return
+    if fam == 'repeat':
+        # The budget holds for the 60th description parsed by a process as
+        # for the first, under every optional mode and afterwards under the
+        # default settings again.
+        for cfg in REPEAT_CONFIGS:
+            for k in range(60):
+                if ctx.extra.get('confirmed', 0) >= MAX_CONFIRMED_PER_SHARD:
+                    break
+                text = (f"TIS{k % 10}N-R97W Sec {k % 36 + 1}: NE/4\n"
+                        f"T{150 + k}N-R97W Sec 25: Lots 1 - 4, S/2N/2 of the "
+                        f"NE, less and except the wellbore\n"
+                        f"T155N-R97W Sec {k % 30 + 2}: ALL")
+                ctx.hit('repeat')
+                judge(ctx, pytrs, {'family': 'repeat', 'cfg': cfg, 'k': k},
+                      text, budget)
         return
     if fam == 'structural':
         for text, what in _structural():
@@ -371,6 +428,16 @@ def replay(case, ctx):
 
 
 def classify(v):
+    """
+    'ranges-denote-tens-of-thousands-of-tracts': the parse completes, yields
+    >= 10 000 tracts (section ranges such as 'Sec 1-999, 1-999, ...') and
+    costs <= 0.5 ms of CPU per tract -- the time is the price of an output
+    150 times the size of the input, not time lost in a pattern.
+    """
+    if v.get('kind') == 'over-budget' and (v.get('n_tracts') or 0) >= 10000 \
+            and v.get('per_tract_ms') is not None \
+            and v["per_tract_ms"] <= 0.5:
+        return 'ranges-denote-tens-of-thousands-of-tracts'
     return None
 
 
